@@ -328,12 +328,34 @@ var secureConvNames = []string{"play-tcp-secure", "record-tcp-secure"}
 
 func convsFor(tls bool) []string {
 	if tls {
-		return append(append([]string{}, convNames...), secureConvNames...)
+		// without play-tcp-stalled: under TLS the server's answer waits for the TLS write lock held by the
+		// blocked media write, which the quiescence barrier cannot tell from a goroutine that is about to run
+		var out []string
+		for _, c := range convNames {
+			if c != "play-tcp-stalled" {
+				out = append(out, c)
+			}
+		}
+		return append(out, secureConvNames...)
 	}
 	return convNames
 }
 
-var convNames = []string{"play-tcp", "play-udp", "record-tcp", "record-udp", "http-tunnel", "websocket", "auth-describe"}
+var convNames = []string{"play-tcp", "play-udp", "record-tcp", "record-udp", "http-tunnel", "websocket", "auth-describe", "play-tcp-stalled"}
+
+// stalledConv: a reader over TCP that stops reading once it plays (the harness then writes enough
+// packets to the stream for the server's writer to block inside a socket write) and keeps sending
+// requests: PAUSE, GET_PARAMETER, TEARDOWN. The stalled phase is part of the base conversation, so the
+// whole deviation catalogue (every inserted / altered / reordered request) also applies while stalled.
+func stalledConv() []Step {
+	sess := Hdr{"Session", "{S}"}
+	c := playConv("tcp")[:5]
+	c = append(c, Step{Kind: "stall", Name: "STALL"},
+		req("PAUSE", "PAUSE", baseURL, 6, sess),
+		req("GET_PARAMETER", "GET_PARAMETER", baseURL, 7, sess),
+		req("TEARDOWN", "TEARDOWN", baseURL, 8, sess))
+	return c
+}
 
 func baseConv(name string) []Step {
 	switch name {
@@ -341,6 +363,8 @@ func baseConv(name string) []Step {
 		return playConv("tcp")
 	case "play-udp":
 		return playConv("udp")
+	case "play-tcp-stalled":
+		return stalledConv()
 	case "record-tcp":
 		return recordConv("tcp")
 	case "record-udp":
